@@ -28,7 +28,7 @@ RULE = (
     "values of a reference model (an assignment on one copy changes that copy and nothing else). Non-trivial: key depth >=3 with a textual value, or an invalid key; distinct by JSON."
 )
 ASSUMPTIONS = [
-    "textual values with quotes, backslashes, leading/trailing blanks, hex/underscore/inf/nan spellings or Python keywords (True/None) are outside what a text literally denotes unambiguously and are not generated - except the texts 'True' / 'False' assigned to a model's enabled flag, which must set the boolean (a command-line override has no other way to pass one)",
+    "textual values with quotes (other than a list text whose elements are quoted words or numbers: they denote strings), backslashes, leading/trailing blanks, hex/underscore/inf/nan spellings or Python keywords (True/None) are outside what a text literally denotes unambiguously and are not generated - except the texts 'True' / 'False' assigned to a model's enabled flag, which must set the boolean (a command-line override has no other way to pass one)",
     "a tuple-looking text may come back as tuple or list with equal elements",
 ]
 SHARDS = {"quick": 8, "thorough": 16}
@@ -55,6 +55,8 @@ _num_text = st.one_of(st.integers(-10**6, 10**6).map(str), st.floats(-1e6, 1e6, 
 _seq_text = st.one_of(
     st.lists(st.integers(-99, 99), min_size=1, max_size=4).map(lambda l: "[" + ", ".join(map(str, l)) + "]"),
     st.lists(st.floats(-99, 99, allow_nan=False), min_size=2, max_size=3).map(lambda l: "(" + ", ".join(map(repr, l)) + ")"),
+    # a list text whose elements are quoted: every element denotes the string between the quotes, whatever it looks like
+    st.lists(st.sampled_from(["1", "2.5", "abc", "x_y", "1e3", "-4", "007"]), min_size=1, max_size=3).map(lambda l: "[" + ", ".join(f"'{x}'" for x in l) + "]"),
 )
 arg_values = st.one_of(
     st.integers(-1000, 1000), st.floats(-1e6, 1e6, allow_nan=False), st.booleans(), _plain, _num_text, _seq_text,
@@ -204,7 +206,7 @@ def denote(v):
         return float(v)
     if v[0] in "[(" and v[-1] in "])":
         inner = [x.strip() for x in v[1:-1].split(",") if x.strip()]
-        vals = [denote(x) for x in inner]
+        vals = [x[1:-1] if len(x) >= 2 and x[0] == x[-1] and x[0] in "'\"" else denote(x) for x in inner]
         return tuple(vals) if v[0] == "(" else vals
     return v
 
